@@ -243,6 +243,7 @@ fn main() {
         std::process::exit(1);
     }
     let thorough = run.tier == Tier::Thorough;
+    vcommon::en::WRAP_LIES.store(true, std::sync::atomic::Ordering::Relaxed);
     let mut sink = Sink::new();
     let sfx = std_suffixes();
 
